@@ -29,6 +29,7 @@ func ShrinkMode() { waitLimit = 1500 * time.Millisecond }
 type UMsg struct {
 	ID       int
 	Panic    bool
+	Internal bool
 	GateNext bool
 }
 type GateMsg struct{ N int }
@@ -206,6 +207,9 @@ func (r *rcv) Receive(c *actor.Context) {
 		if m.Panic {
 			if m.GateNext {
 				w.pendGate.Store(true)
+			}
+			if m.Internal {
+				panic(&actor.InternalError{From: "harness", Err: fmt.Errorf("planned internal error on message %d", m.ID)})
 			}
 			panic(fmt.Sprintf("planned panic on message %d", m.ID))
 		}
@@ -643,7 +647,7 @@ func Run(spec Spec, waitOrphans bool) (*Obs, *Sim, error) {
 					from = w.senders[op.From-1]
 				}
 				for k := 0; k < n; k++ {
-					e.SendWithSender(w.pid, UMsg{ID: op.ID + k, Panic: op.Panic && n == 1, GateNext: op.GateNext && n == 1}, from)
+					e.SendWithSender(w.pid, UMsg{ID: op.ID + k, Panic: op.Panic && n == 1, Internal: op.Internal && op.Panic && n == 1, GateNext: op.GateNext && n == 1}, from)
 				}
 				sim.Send(op)
 			case "gate":
